@@ -169,10 +169,17 @@ class LexProbe:
             a + b + c for a in reps
             for b in (reps if self.thorough else crit)
             for c in (reps if self.thorough else crit)]
-        for s in probes:
-            r = self.run(s)
+        # both lexer modes (one-character variable names on / off): the
+        # value alphabets and head kinds are the union, a raise in either
+        # mode counts
+        self.has_mode = self._has_mode_parameter()
+        runs = [(s, False) for s in probes]
+        if self.has_mode:
+            runs += [(s, True) for s in probes if len(s) <= 2]
+        for s, mode in runs:
+            r = self.run(s, mode)
             if isinstance(r, tuple):
-                self.raised.append((s, r[1]))
+                self.raised.append((s + (" [V]" if mode else ""), r[1]))
                 continue
             if s and r:
                 self.head_kinds.setdefault(s[0], set()).add(r[0][0])
@@ -182,6 +189,10 @@ class LexProbe:
                 for ch in val:
                     self.alpha_sigs.setdefault(kind, set()).add(ch)
         self.n_probes = len(probes)
+
+    def _has_mode_parameter(self):
+        fn = self.mod.functions.get("tokenise")
+        return fn is not None and len(fn.args.args) >= 2
 
     def alphabet(self, kind):
         """characters that can occur in values of `kind` (None = any)"""
